@@ -333,10 +333,20 @@ class Ctx:
         self.assumptions = []
         self.extra = {}
         self.thorough = tier == "thorough"
+        self.scale = 1              # > 1: the source differs from the fingerprinted tree, search wider
+        self.changed_files = []
 
     # -- budgets
     def budget(self, quick, thorough):
-        return thorough if self.thorough else quick
+        """size of a stream / a time limit for this tier.  When the source of the package differs from the tree
+        the checks were last validated against (tools/fingerprint.py) the quick tier searches wider: its
+        budgets are multiplied by `scale`, never beyond the thorough budget."""
+        if self.thorough:
+            return thorough
+        if self.scale > 1 and thorough > quick:
+            wide = quick * self.scale
+            return min(thorough, type(quick)(wide))
+        return quick
 
     # -- coverage accounting
     def case(self, key=None, sample=None, **dist):
@@ -442,6 +452,7 @@ def finish(ctx, level="proof", extra_assumptions=()):
             correspondence_checked=ctx.corr_checked,
             disagreements_checked=ctx.corr_disagreements,
             known_findings_printed=sorted(printed_known),
+            source_changed_since_fingerprint=list(ctx.changed_files), budget_scale=ctx.scale,
             explanation=ctx.extra.get("explanation", ""),
         ),
         assumptions=list(ctx.assumptions) + list(extra_assumptions),
@@ -479,6 +490,15 @@ def run_check(pid, tier, seed, module, replay=None):
         gen_tables.FALLBACK_DIR = os.path.join(LEAN_SRC, "PolyplyVerif", "Generated")
     ctx = Ctx(pid, tier, seed)
     quiet_logs()
+    try:
+        sys.path.insert(0, os.path.join(VERIF, "tools"))
+        import fingerprint
+        ctx.changed_files = fingerprint.changed_files(REPO)
+    except Exception:  # pylint: disable=broad-except
+        ctx.changed_files = []
+    if ctx.changed_files and replay is None:
+        ctx.scale = int(os.environ.get("VERIF_CHANGED_SCALE", "4"))
+        print("source differs from the fingerprinted tree in %s: quick budgets x%d" % (", ".join(ctx.changed_files), ctx.scale))
     if replay is not None:
         data = json.load(open(replay))
         code, _ = lake_build(["PolyplyVerif.Driver." + pid])
